@@ -11,6 +11,7 @@ from .c09 import ALL as LIMIT_KEYS, DEFAULTS as LIMIT_DEFAULTS
 
 PROP = "C16"
 LEVEL = "exploration"
+ANCHORS = ["change_comp", "del_comp", "_rel_update", "_get_parents", "_pars_and_limits", "System.phases", "_get_params", "_get_topo_sort"]  # functions whose reached lines are reported in the evidence
 RULE = (
     "cases = a random target SystemSpec T (multi-source, PMux, rails, groups, limits, phases) and a DETOUR history "
     "that ends at T: random construction order; extra components added and deleted again (freeing node indices); "
